@@ -13,6 +13,11 @@
                                        its inner-store request (or completes)     -> <res>@<tier> | parked@<tier>
      W <i>                             reader i's inner request proceeds, reader
                                        runs to completion                         -> <res>
+     S <req> W                         the reader arrived but neither completed nor
+                                       reached the inner store (it waits for another
+                                       reader): arrival only                      -> blocked
+     K <i>                             waiting reader i has reached the inner store -> parked
+     F <i>                             waiting reader i has completed by itself     -> <res>
    <req> = G k | O k range if_match if_none_match if_mod if_unmod version head | N k s e | H k
            range = - | b<s>-<e> | o<n> | s<n>;   etag condition = - | * | e (empty) | t1,t2,...
            dates = - | <ns>;  version, head = 0 | 1
@@ -104,6 +109,7 @@ let run_line (line : string) : string =
     ev (EStart q);
     let step () = ev (EStep (nat_of_int i)) in
     let miss () = ev (EStepMiss (nat_of_int i)) in
+    if obs = "W" then (i, None, "W") else
     (match pc_of !st i with
      | PBypass -> (i, None, "B")
      | _ ->
@@ -143,7 +149,22 @@ let run_line (line : string) : string =
         let (q, rest) = parse_req rest in
         let obs = (match rest with [o] -> o | _ -> failwith "bad S") in
         let (_, r, tier) = arrive q obs in
-        (match r with Some r -> show_res q r ^ "@" ^ tier | None -> "parked@" ^ tier)
+        (match r with
+         | Some r -> show_res q r ^ "@" ^ tier
+         | None -> if tier = "W" then "blocked" else "parked@" ^ tier)
+    | ["K"; i] ->
+        (* a reader that was waiting has reached the inner store: both lookups came back empty *)
+        let i = int_of_string i in
+        (match pc_of !st i with
+         | PStart -> ev (EStepMiss (nat_of_int i)); ev (EStepMiss (nat_of_int i))
+         | PL2 -> ev (EStepMiss (nat_of_int i))
+         | _ -> ());
+        "parked"
+    | ["F"; i] ->
+        (* a reader that was waiting has completed without being seen at the inner store *)
+        let i = int_of_string i in
+        let q = (match nth_error (!st).s_threads (nat_of_int i) with Some t -> t.t_req | None -> failwith "no such reader") in
+        show_res q (finish i)
     | ["W"; i] ->
         let i = int_of_string i in
         let q = (match nth_error (!st).s_threads (nat_of_int i) with Some t -> t.t_req | None -> failwith "no such reader") in
